@@ -124,7 +124,7 @@ impl StorageEngine {
 //@@|     let ghost all = members@;
 //@@|     let ghost old_set = set@;
 //@@|     proof { all.unique_seq_to_set(); }
-//@@   at "for member in &result"
+//@@   at "for member in"
 //@@|     proof {
 //@@|         assert(result@.subrange(0, 0).to_set() =~= Set::<Vec<u8>>::empty());
 //@@|         assert forall|i: int, j: int| 0 <= i < j < result@.len() implies result@[i] != result@[j] by { assert(all[i] != all[j]); }
